@@ -68,6 +68,13 @@ def _listing(p, meth, blob):
         return ['raised %s: %s' % (type(ex).__name__, str(ex)[:120])]
 
 
+def _listing_reader(p, meth, reader):
+    try:
+        return [x if isinstance(x, str) else repr(x)[:300] for x in getattr(p, meth)(reader)]
+    except BaseException as ex:  # noqa
+        return ['raised %s' % type(ex).__name__]
+
+
 def _pk():
     from pykdebugparser.pykdebugparser import PyKdebugParser
     p = PyKdebugParser()
@@ -82,7 +89,7 @@ def op_names():
     names = ['kd:%d' % q for q in (1, 2, 3, 0)]
     names += ['parse:%s' % d for d in ('V3K', 'A', 'V3N', 'B')]
     names += ['pk:%s:%s' % (m, d) for d in ('A', 'B', 'V3K', 'V3N') for m in LISTINGS]
-    names += ['ti:%d' % i for i in range(3)] + ['codes:0', 'codes:1', 'table:user', 'table:default']
+    names += ['ti:%d' % i for i in range(3)] + ['codes:0', 'codes:1', 'table:user', 'table:default', 'ioerror:11', 'ioerror:104', 'errno:0']
     return names
 
 
@@ -108,9 +115,32 @@ def run_op(name, D):
             meth, _, d = arg.partition(':')
             p = _pk()
             return {'listing': _listing(p, meth, D[d]), 'threads_pids': repr(sorted(p.threads_pids.items())), 'pids_names': repr(sorted(p.pids_names.items()))}
+        if kind == 'ioerror':
+            import io
+
+            class Failing(io.BytesIO):
+                def __init__(self, data, code):
+                    io.BytesIO.__init__(self, data)
+                    self.code, self.n = code, 0
+
+                def read(self, n=-1):
+                    # the header and the first records arrive, then the live stream breaks
+                    if self.tell() >= 0x120 + 64 + 64 * 4:
+                        raise OSError(self.code, os.strerror(self.code))
+                    return io.BytesIO.read(self, n)
+            return _listing_reader(_pk(), 'formatted_traces', Failing(D['A'], int(arg)))
+        if kind == 'errno':
+            from pykdebugparser.traces_parser import TracesParser
+            from pykdebugparser.kevent import from_kd_buf as fk
+            p = TracesParser(dict(_cached_codes()), {}, {})
+            out = []
+            for code in (11, 35, 104, 110, 1):
+                p.feed(fk(_rec(1, 5, 'BSC_sys_close', 1, (3, 0, 0, 0), inv=inv)))
+                out.append(str(p.feed(fk(_rec(2, 5, 'BSC_sys_close', 2, (code, 0, 0, 0), inv=inv)))))
+            return out
         if kind == 'ti':
             from pykdebugparser.os_log_event import OsLogEvent
-            words = [(0x1111 << 32) | 0x02000304, (0x2222 << 32) | 0x02000304, (0x3333 << 32) | 0x03000304]
+            words = [(0x1111 << 32) | 0x02000104, (0x2222 << 32) | 0x02000104, (0x3333 << 32) | 0x03000104]
             return repr(OsLogEvent.parse_trace_identifier(words[int(arg)]))
         if kind == 'codes':
             from pykdebugparser.trace_codes import from_trace_codes_text
@@ -152,6 +182,39 @@ def same_object_histories():
                 k = next((i for i in range(max(len(got), len(want))) if i >= len(got) or i >= len(want) or got[i] != want[i]), 0)
                 return {'violates': True, 'what': '%s of dump %s on a parser object that served earlier requests differs from a fresh parser object: item %d is %r, '
                                                   'a fresh object reports %r' % (meth, d, k, got[k] if k < len(got) else None, want[k] if k < len(want) else None)}
+    # the caller edits the filter lists in place between two requests
+    p, steps = _pk(), [([4], []), ([4, 7], []), ([7], [0x040c]), ([], []), ([31], [])]
+    p.filter_class, p.filter_subclass = [], []
+    for fc, fsc in steps:
+        del p.filter_class[:]
+        p.filter_class.extend(fc)
+        del p.filter_subclass[:]
+        p.filter_subclass.extend(fsc)
+        for meth in ('kevents', 'traces', 'formatted_kevents'):
+            got = _listing(p, meth, D['A'])
+            f = _pk()
+            f.filter_class, f.filter_subclass = list(fc), list(fsc)
+            want = _listing(f, meth, D['A'])
+            if got != want:
+                return {'violates': True, 'what': '%s with filter_class=%r filter_subclass=%r (lists edited in place on a parser object that served earlier requests) '
+                                                  'lists %d items, a fresh parser object with these settings lists %d: %r / %r' % (meth, fc, fsc, len(got), len(want), got[:4], want[:4])}
+    # the caller supplies a different code table on the next request
+    from pykdebugparser.trace_codes import default_trace_codes
+    base = dict(default_trace_codes())
+    swapped = {k: ('BSC_write' if v == 'BSC_read' else 'BSC_read' if v == 'BSC_write' else v) for k, v in base.items()}
+    p = _pk()
+    for table in (base, swapped, {}, base):
+        for meth in ('formatted_kevents', 'formatted_traces', 'traces'):
+            def lst(obj):
+                try:
+                    return [x if isinstance(x, str) else str(x) for x in getattr(obj, meth)(io.BytesIO(D['B']), table)]
+                except BaseException as ex:  # noqa
+                    return ['raised %s' % type(ex).__name__]
+            got, want = lst(p), lst(_pk())
+            if got != want:
+                k = next((i for i in range(max(len(got), len(want))) if i >= len(got) or i >= len(want) or got[i] != want[i]), 0)
+                return {'violates': True, 'what': '%s with a supplied code table on a parser object that served requests under another table: item %d is %r, a fresh '
+                                                  'object reports %r' % (meth, k, got[k] if k < len(got) else None, want[k] if k < len(want) else None)}
     from pykdebugparser.kd_buf_parser import KdBufParser
     tp, pn = {}, {}
     for d in ('A', 'B', 'V3K', 'V3N', 'A'):
@@ -172,6 +235,23 @@ def same_object_histories():
     return {'violates': False}
 
 
+def oracle_histories():
+    """results that must not change after they were handed out, and decodes that must not depend on what was decoded before
+    (each compared with the specification's value)"""
+    from pykdebugparser.os_log_event import OsLogEvent
+    words = [(0x1111 << 32) | 0x02000104, (0x2222 << 32) | 0x02000104, (0x3333 << 32) | 0x03000104, (0x4444 << 32) | 0x02000104]
+    objs = [OsLogEvent.parse_trace_identifier(w) for w in words]
+    codes = [o.code for o in objs]
+    if codes != [w >> 32 for w in words]:
+        return {'violates': True, 'what': 'trace identifiers %s decoded one after the other carry the codes %r, their words pack %r' % (
+            [hex(w) for w in words], codes, [w >> 32 for w in words])}
+    flags = [int(o.flags) if o.flags is not None else None for o in objs]
+    if flags != [(w >> 24) & 0xff for w in words]:
+        return {'violates': True, 'what': 'trace identifiers %s decoded one after the other carry the flags %r, their words pack %r' % (
+            [hex(w) for w in words], flags, [(w >> 24) & 0xff for w in words])}
+    return {'violates': False}
+
+
 def do_api_history_case(req):
     from concurrent.futures import ThreadPoolExecutor
 
@@ -180,6 +260,9 @@ def do_api_history_case(req):
                            input=json.dumps({'kind': 'api_history_ops', 'ops': ops}), capture_output=True, text=True, timeout=600, env=dict(os.environ))
         return json.loads(p.stdout.strip().splitlines()[-1])['out']
     r = same_object_histories()
+    if r['violates']:
+        return r
+    r = oracle_histories()
     if r['violates']:
         return r
     names = op_names()
